@@ -241,17 +241,38 @@ def rule_prov(ctx, f):
         if l is not None:
             fl.origins(l, fields=fs)
         ctx.check("default_width" in fs, "C19-PROV", "widths#cid:default", "the default width of a composite font is not its /DW (fields read: %s)" % sorted(fs), t["span"], detail="Widths::new(cid.default_width)")
-    sets = [(bi, t) for bi, t in F.calls(b) if F.callee_name(t) == "font::Widths::set"]
-    ctx.floor("C19-PROV", len(sets), 3, "Widths::set call sites (array group, referenced array group, range group)")
+    # Widths::set call sites of Font::widths, and of the private helpers it calls (each helper call site instantiates the helper's sites)
+    def origin_names(body, bfl, local, actuals):
+        """(names of calls, origin atoms) of a local; a helper's parameter continues with the caller's actual argument"""
+        names, atoms = set(), []
+        for a in bfl.origins(local, passthrough=PT) if local is not None else []:
+            atoms.append(a)
+            if a[0] == "call":
+                names.add(last_seg(a[1]))
+            if a[0] == "arg" and actuals and a[1] in actuals:
+                cb, cfl, op = actuals[a[1]]
+                n2, a2 = origin_names(cb, cfl, F.op_local(op), None)
+                names |= n2
+                atoms += a2
+        return names, atoms
+    sites = []      # (body, flow, bi, t, actuals)
+    for bi, t in F.calls(b):
+        if F.callee_name(t) == "font::Widths::set":
+            sites.append((b, fl, bi, t, None))
+        elif t.get("resolved_local") and t.get("resolved") in f.bodies and f.bodies[t["resolved"]]["_file"] == b["_file"] and not f.bodies[t["resolved"]].get("pub"):
+            hb = f.bodies[t["resolved"]]
+            hfl = None
+            for hbi, ht in F.calls(hb):
+                if F.callee_name(ht) == "font::Widths::set":
+                    hfl = hfl or Flow(hb)
+                    sites.append((hb, hfl, hbi, ht, {k + 1: (b, fl, a) for k, a in enumerate(t["args"])}))
+    ctx.floor("C19-PROV", len(sites), 3, "Widths::set call sites (array group, referenced array group, range group)")
     n_arr = n_rng = 0
-    for bi, t in sets:
+    for k, (sb, sfl, bi, t, actuals) in enumerate(sites, 1):
         cl = F.op_local(t["args"][1])
         wl = F.op_local(t["args"][2])
-        co = fl.origins(cl, passthrough=PT) if cl is not None else []
-        wo = fl.origins(wl, passthrough=PT) if wl is not None else []
-        cnames = {last_seg(a[1]) for a in co if a[0] == "call"}
-        wnames = {last_seg(a[1]) for a in wo if a[0] == "call"}
-        k = sets.index((bi, t)) + 1
+        cnames, co = origin_names(sb, sfl, cl, actuals)
+        wnames, wo = origin_names(sb, sfl, wl, actuals)
         ctx.check("as_number" in wnames, "C19-PROV", "widths#set@%d:width" % k, "a width stored for a composite font is not read as a number from the /W array (origins: %s)" % sorted(wnames), t["span"], detail="w.as_number()")
         ctx.check("as_usize" in cnames, "C19-PROV", "widths#set@%d:code" % k, "a code stored for a composite font does not derive from the group's first code (origins: %s)" % sorted(cnames), t["span"], detail="c1 = p.as_usize()")
         if "enumerate" in cnames:
